@@ -479,6 +479,10 @@ func (r *Runner) tryCommit(lb *liveBlock) bool {
 		lb.bc.SetBlockHash(lb.decl.Hash)
 		lb.renamed = true
 		r.logf("%s SetBlockHash", lb.decl.Hash)
+		if gen.Chance(r.RT, 50, "hashthenlater") {
+			// the block has its final hash now and is committed at a later step; lookups through it go on meanwhile
+			return false
+		}
 	}
 	if p := r.Tree.Block(lb.decl.Prev); p != nil && p.Commit && !r.committed[p.Hash] {
 		r.OutOfOrderCommit = true
